@@ -214,11 +214,8 @@ func Build(spec Spec, n int, keyBase int) (*World, error) {
 		case "mem":
 			sw := realm.NewSwarm(PubOf(nd.Key))
 			nd.S, nd.A, nd.Sec = Erase[memswarm.Addr](sw), EraseAsk[memswarm.Addr](sw), EraseSec[memswarm.Addr](sw)
-		case "udp", "udp6":
-			laddr := "127.0.0.1:0"
-			if spec.Base == "udp6" {
-				laddr = "[::1]:0"
-			}
+		case "udp", "udp6", "udp-any", "udp6-any":
+			laddr := map[string]string{"udp": "127.0.0.1:0", "udp6": "[::1]:0", "udp-any": "0.0.0.0:0", "udp6-any": "[::]:0"}[spec.Base]
 			sw, err := udpswarm.New(laddr)
 			if err != nil {
 				w.Close()
